@@ -17,7 +17,7 @@ Judge(e) ==
       pref == Preferred(iuse, ft, ff, pt)
   IN IF ~InDomain(iuse, ft, ff) \/ ~WellFormed(e.cons) THEN {<<"OutsideDomain", <<>>>>}
      ELSE UNION {If(Status(e.cons, obs[k]) = "unsat", "Sound", e.sols[k])
-                 \cup If(~(ft \subseteq obs[k]), "ForcedOn", e.sols[k])
+                 \cup If(~((ft \cap iuse) \subseteq obs[k]), "ForcedOn", e.sols[k])
                  \cup If(obs[k] \cap ff # {}, "ForcedOff", e.sols[k])
                  \cup If(~(obs[k] \subseteq iuse), "OutsideIuse", e.sols[k])
                  \cup If(\E j \in DOMAIN obs : j < k /\ obs[j] = obs[k], "Duplicate", e.sols[k])
